@@ -14,7 +14,12 @@
 (* voter (own votes V, CommitEvents C with the packed vote sets, header    *)
 (* updates U).  The credential check follows sortition_verifier.go :205:   *)
 (* an INVALID credential is let through when the vote's index is behind    *)
-(* the engine's (as coded).                                                *)
+(* the engine's (as coded).  Votes of a future index are cached by the     *)
+(* message handler (msg_cache.go) and replayed to the voter when the index *)
+(* starts (msg_handler.go processCachedMsgs, at the step-0 context event): *)
+(* prevotes and precommits -- certificate votes are not cached.  The       *)
+(* engine posts the replayed messages asynchronously; the model (and the   *)
+(* driver) uses the order prevotes, precommits, each in order of arrival.  *)
 (*                                                                         *)
 (* PROPERTY LAYER: written from the statement only.  `dl` records the      *)
 (* votes DELIVERED with a valid credential (whatever the code did with     *)
@@ -32,6 +37,8 @@ CONSTANTS WSel,       \* row of the weight table below
           CertRound,  \* the round requires certificate votes
           Creds,      \* {"ok"} or {"ok", "bad"}
           Known,      \* discriminators tolerated by the invariants (classes listed as known findings)
+          Replay,     \* vote kinds whose future-index messages the handler caches AND replays when the index starts:
+                      \* {"Prevote", "Precommit"} since commit 1d1ac7a ({} before it); certificate votes are never cached
           Mode, MaxOps
 
 \* weights: first the node itself, then the peers (sortition weight = stake in the fixture); T = committee size
@@ -105,7 +112,8 @@ Recv(x, s, k, b, ii, cred) ==
         ELSE LET r == Tally(x.wr[ii], k, s, b, TRUE)
                  x1 == [x EXCEPT !.wr[ii] = r.w]
              IN IF r.res = "new" THEN Judge(x1, k, b, r.count) ELSE x1
-   ELSE IF ii > x.i THEN x                                    \* msgFuture: verified, not counted (cached by the handler)
+   ELSE IF ii > x.i THEN                                      \* msgFuture: verified, not counted; cached by the handler (codes <= msgNext)
+        IF cred = "ok" /\ k \in Replay THEN [x EXCEPT !.cache[ii] = Append(@, [k |-> k, s |-> s, b |-> b])] ELSE x
    ELSE                                                       \* msgOldRoundIndex: an invalid credential passes (as coded :213)
         IF k # "Precommit" THEN x
         ELSE LET r == Tally(x.wr[ii], k, s, b, cred = "ok")
@@ -114,14 +122,21 @@ Recv(x, s, k, b, ii, cred) ==
                 THEN [x1 EXCEPT !.out = Append(@, [t |-> "U", i |-> ii, b |-> b, pre |-> Stored(r.w, "Precommit", b), inv |-> r.w.inv])]
                 ELSE x1
 
+\* processCachedMsgs at the start of index x.i: the cached prevotes, then the cached precommits, each as a msgSame vote
+RECURSIVE ReplaySeq(_, _)
+ReplaySeq(x, q) == IF q = <<>> THEN x ELSE ReplaySeq(Recv(x, Head(q).s, Head(q).k, Head(q).b, x.i, "ok"), Tail(q))
+OfKind(q, k) == SelectSeq(q, LAMBDA m : m.k = k)
+ReplayCached(x) == LET q == x.cache[x.i] IN
+                   ReplaySeq([x EXCEPT !.cache[x.i] = <<>>], OfKind(q, "Prevote") \o OfKind(q, "Precommit"))
+
 (***************************** property layer *****************************)
 \* weight of the valid-credential votes delivered for exactly block b by senders seen with no other block
 DQ(d, o, ii, k, b) == Sum({ s \in Peers : d[ii][k][s] = {b} }) + (IF <<ii, k, b>> \in o THEN Wt(0) ELSE 0)
 Entitled(d, o, ii, k, b) == { s \in Peers : d[ii][k][s] = {b} } \cup (IF <<ii, k, b>> \in o THEN {0} ELSE {})
 
 \* Discriminator of a failed quorum clause: "equivocator_future_vote" when the quorum exists once the votes that were
-\* delivered while their index was still in the node's future are disregarded (the node drops those: the handler
-\* caches them and replays only next-index votes), "no_quorum" otherwise.
+\* delivered while their index was still in the node's future AND that the node drops (kinds not in Replay: the
+\* certificate votes) are disregarded, "no_quorum" otherwise.
 Disc(strict, lenient) == IF strict THEN {} ELSE IF lenient THEN {"equivocator_future_vote"} ELSE {"no_quorum"}
 Flag(c, strict, lenient) == { <<c, x>> : x \in Disc(strict, lenient) }
 
@@ -161,16 +176,17 @@ Step2 == \E best \in Blocks :
 Step4 == /\ v.step < 4 /\ Tick([op |-> "Step", st |-> 4, best |-> Nil])
          /\ Apply([v EXCEPT !.step = 4], dl, dln) /\ UNCHANGED nmsg
 NextIdx == /\ v.i < MaxI /\ Tick([op |-> "NextIdx"])
-           /\ Apply([v EXCEPT !.i = @ + 1, !.step = 0, !.pc = FALSE, !.cd = FALSE, !.cm = FALSE, !.over = {}], dl, dln) /\ UNCHANGED nmsg
+           /\ Apply(ReplayCached([v EXCEPT !.i = @ + 1, !.step = 0, !.pc = FALSE, !.cd = FALSE, !.cm = FALSE, !.over = {}]), dl, dln)
+           /\ UNCHANGED nmsg
 Deliver == \E s \in Peers, k \in (IF CertRound THEN K3 ELSE K3 \ {"Cert"}), b \in Blocks, ii \in 1..MaxI, cred \in Creds :
              /\ nmsg < MaxMsgs /\ nmsg' = nmsg + 1
              /\ Tick([op |-> "Recv", s |-> s, k |-> k, b |-> b, i |-> ii, cred |-> cred])
              /\ Apply(Recv(v, s, k, b, ii, cred),
                       IF cred = "ok" THEN [dl EXCEPT ![ii][k][s] = @ \cup {b}] ELSE dl,
-                      IF cred = "ok" /\ ii <= v.i THEN [dln EXCEPT ![ii][k][s] = @ \cup {b}] ELSE dln)
+                      IF cred = "ok" /\ (ii <= v.i \/ k \in Replay) THEN [dln EXCEPT ![ii][k][s] = @ \cup {b}] ELSE dln)
 
 Init == /\ v = [i |-> 1, step |-> 0, pc |-> FALSE, cd |-> FALSE, cm |-> FALSE, over |-> {},
-                wr |-> [ii \in 1..MaxI |-> EmptyWrapper], out |-> <<>>]
+                wr |-> [ii \in 1..MaxI |-> EmptyWrapper], cache |-> [ii \in 1..MaxI |-> <<>>], out |-> <<>>]
         /\ dl = [ii \in 1..MaxI |-> [k \in K3 |-> [s \in Peers |-> {}]]] /\ dln = dl
         /\ ownv = {} /\ flags = {} /\ nmsg = 0
         /\ hist = <<[op |-> "Cfg", cert |-> CertRound]>>
